@@ -102,7 +102,8 @@ def translator_findings(res):
     """the (T) side's own concrete counter-examples for obligations that no longer hold"""
     rep = {}
     tool = {}
-    for jf, t in (("mword.json", "kern_mword.py"), ("mword2.json", "kern_mword2.py")):
+    for jf, t in (("mword.json", "kern_mword.py"), ("mword2.json", "kern_mword2.py"),
+                  ("mword_max.json", "kern_mword_max.py"), ("masked_max.json", "kern_masked_max.py")):     # MAX_SHARES = 2, 3 and direct-XOR x1 rows
         p = os.path.join(common.BUILD, "kern", jf)
         if os.path.exists(p):
             part = json.load(open(p))
@@ -140,11 +141,14 @@ def run(res, tier, seed, replay=None):
     rep = translator_findings(res)
     driver = common.build_driver()
     if tier == "quick":
-        configs = [("default", None), ("c64", (3, 3, 3)), ("c32", (2, 2, 2)), ("c32", (4, 3, 4))]
+        # ("default", (3, 2, 3)): the x86-64 assembly with 24-byte masked words (the `#elif ASCON_MASKED_MAX_SHARES >= 3` bodies)
+        configs = [("default", None), ("default", (3, 2, 3)), ("c64", (3, 3, 3)), ("c32", (2, 2, 2)), ("c32", (4, 3, 4))]
     else:
         configs = [("default", None), ("default", (2, 1, 2)), ("default", (3, 2, 3)), ("default", (3, 3, 4)), ("default", (4, 4, 4)),
                    ("c64", (2, 2, 2)), ("c64", (3, 3, 3)), ("c64", (4, 1, 4)), ("c64", (3, 2, 4)), ("c64", (4, 4, 4)),
-                   ("c32", (2, 2, 2)), ("c32", (3, 3, 3)), ("c32", (4, 3, 4)), ("c32", (4, 4, 4)), ("c32", (4, 2, 4)), ("c32", (3, 1, 3))]
+                   ("c32", (2, 2, 2)), ("c32", (3, 3, 3)), ("c32", (4, 3, 4)), ("c32", (4, 4, 4)), ("c32", (4, 2, 4)), ("c32", (3, 1, 3)),
+                   # the ASCON_BACKEND_DIRECT_XOR bodies of ascon_xN_copy_from_x1 / copy_to_x1 (DATA_SHARES = 1 makes the AEAD use them)
+                   ("directxor", (2, 1, 2)), ("generic", (3, 1, 3))]
     per = []
     dist = collections.Counter()
     samples = []
@@ -174,9 +178,10 @@ def run(res, tier, seed, replay=None):
     res.cov.update({
         "evaluations": sum(p["sessions"] for p in per),
         "distinct_nontrivial": sum(p["nontrivial"] for p in per),
-        "rule": "(T) masked permutation kernels (C64 + C32 + x86-64 asm, x2/x3/x4, every first_round), the whole masked-word toolkit (C64 + C32 + x86-64 asm: load, store, "
+        "rule": "(T) masked permutation kernels (C64 + C32 + x86-64 asm, x2/x3/x4, every first_round, every container size MAX_SHARES >= shares: 18 kernels), the whole masked-word toolkit (C64 + C32 + x86-64 asm: load, store, "
                 "randomize, xor, conversions, zero, load_partial/store_partial/replace for size 0..7, load_32, pad for offset 0..7, separator), masked-key functions "
-                "(KEY_SHARES 2,3,4; C64 and C32) and masked-state functions incl. the x1 conversions re-translated and proved for all shares and all random words; (D) masked AEAD vs the proved AEAD model under zero/ones/alternating/"
+                "(KEY_SHARES 2,3,4; C64 and C32) and masked-state functions incl. the x1 conversions (also their direct-XOR bodies) re-translated and proved for all shares and all random words, "
+                "for masked words of 32 bytes and again for 16 and 24 bytes (MAX_SHARES 2, 3); (D) masked AEAD vs the proved AEAD model under zero/ones/alternating/"
                 "counter/repeating/pseudo-random tapes, masked-key histories (mask, extract, 0..3 re-randomisations, per-share change flags) under degenerate and short tapes, "
                 "masked-state histories (conversions between 2/3/4 shares, randomize, permute from every round) over backends x share triples",
         "samples": samples,
